@@ -83,19 +83,25 @@ def spec_check_2(ctx: Ctx) -> None:
     for r in raises:
         for t, pol in facts_at(cfg, r.id):
             # not all(s == X[0] for s in X)
-            if not pol and isinstance(t, ast.Call) and isinstance(t.func, ast.Name) and t.func.id == "all" and t.args and isinstance(t.args[0], (ast.GeneratorExp, ast.ListComp)):
+            # not all(s == X[0] for s in X)   /   any(s != X[0] for s in X)   (X or X[1:])
+            quant = t.func.id if isinstance(t, ast.Call) and isinstance(t.func, ast.Name) and t.func.id in ("all", "any") and t.args and isinstance(t.args[0], (ast.GeneratorExp, ast.ListComp)) else None
+            if quant is not None and pol == (quant == "any"):
                 ge = t.args[0]
                 el = ge.elt
                 g = ge.generators[0]
-                if isinstance(el, ast.Compare) and len(el.ops) == 1 and isinstance(el.ops[0], ast.Eq) and not g.ifs:
+                want = ast.Eq if quant == "all" else ast.NotEq
+                if isinstance(el, ast.Compare) and len(el.ops) == 1 and isinstance(el.ops[0], (ast.Eq, ast.NotEq)) and not g.ifs:
                     l, r_ = el.left, el.comparators[0]
                     var = g.target.id if isinstance(g.target, ast.Name) else None
                     whole = (isinstance(l, ast.Name) and l.id == var) or (isinstance(r_, ast.Name) and r_.id == var)
                     other = r_ if isinstance(l, ast.Name) and l.id == var else l
-                    first = isinstance(other, ast.Subscript) and isinstance(other.slice, ast.Constant) and other.slice.value == 0 and ast.dump(other.value) == ast.dump(g.iter)
-                    if whole and first:
+                    seq = g.iter
+                    # (the first element need not be compared with itself)
+                    if isinstance(seq, ast.Subscript) and isinstance(seq.slice, ast.Slice) and isinstance(seq.slice.lower, ast.Constant) and seq.slice.lower.value == 1 and seq.slice.upper is None and seq.slice.step is None:
+                        seq = seq.value
+                    first = isinstance(other, ast.Subscript) and isinstance(other.slice, ast.Constant) and other.slice.value == 0 and ast.dump(other.value) == ast.dump(seq)
+                    if whole and first and isinstance(el.ops[0], want):
                         # the sequence holds the `.spec` of every element of the parameter
-                        seq = g.iter
                         src_ok = False
                         if isinstance(seq, ast.Name):
                             for s in fl.rdefs(seq.id, r.id):
@@ -152,6 +158,33 @@ def spec_check_2(ctx: Ctx) -> None:
     ctx.ob(comp, chk[0] if chk else comp.node, ok, "compute() checks specs of all its arrays before planning and executing", sel="check:compute", props=["C18"])
 
 
+def _is_getattr(c: ast.AST, obj: str | None, var: str) -> bool:
+    return (
+        isinstance(c, ast.Call)
+        and isinstance(c.func, ast.Name)
+        and c.func.id == "getattr"
+        and len(c.args) == 2
+        and isinstance(c.args[0], ast.Name)
+        and (obj is None or c.args[0].id == obj)
+        and isinstance(c.args[1], ast.Name)
+        and c.args[1].id == var
+    )
+
+
+def _name_table(repo: Repo, fn: Def, e: ast.AST) -> list[str] | None:
+    """a tuple/list of string constants, inline or as a module-level constant"""
+    if isinstance(e, ast.Name):
+        for n in fn.module.tree.body:
+            if isinstance(n, (ast.Assign, ast.AnnAssign)) and n.value is not None:
+                tg = n.targets[0] if isinstance(n, ast.Assign) else n.target
+                if isinstance(tg, ast.Name) and tg.id == e.id:
+                    return _name_table(repo, fn, n.value)
+        return None
+    if isinstance(e, (ast.Tuple, ast.List)) and e.elts and all(isinstance(x, ast.Constant) and isinstance(x.value, str) for x in e.elts):
+        return [x.value for x in e.elts]
+    return None
+
+
 def _attrs_read(repo: Repo, cls: Def, fn: Def, seen=None) -> set[str]:
     """Attributes of self (and of the other operand) read in fn, closed under properties."""
     seen = seen or set()
@@ -159,6 +192,13 @@ def _attrs_read(repo: Repo, cls: Def, fn: Def, seen=None) -> set[str]:
     for n in fn.own_nodes():
         if isinstance(n, ast.Attribute) and isinstance(n.value, ast.Name) and n.value.id in ("self",):
             out.add(n.attr)
+    # getattr(self, f) for f in <table of names>
+    for n in fn.own_nodes():
+        if isinstance(n, (ast.GeneratorExp, ast.ListComp)) and len(n.generators) == 1 and isinstance(n.generators[0].target, ast.Name):
+            names = _name_table(repo, fn, n.generators[0].iter)
+            v = n.generators[0].target.id
+            if names is not None and any(_is_getattr(c, "self", v) for c in ast.walk(n.elt)):
+                out |= set(names)
     more = set()
     for a in out:
         if a in seen:
@@ -201,6 +241,11 @@ def spec_eq(ctx: Ctx) -> None:
     for r in rets:
         conj = conjuncts(r.value, True)
         for t, pol in conj:
+            if isinstance(t, ast.Call) and isinstance(t.func, ast.Name) and t.func.id == "all" and len(t.args) == 1 and isinstance(t.args[0], (ast.GeneratorExp, ast.ListComp)) and len(t.args[0].generators) == 1 and not t.args[0].generators[0].ifs and isinstance(t.args[0].generators[0].target, ast.Name):
+                # all(getattr(self, f) == getattr(other, f) for f in <names>)
+                el, v = t.args[0].elt, t.args[0].generators[0].target.id
+                if isinstance(el, ast.Compare) and len(el.ops) == 1 and isinstance(el.ops[0], ast.Eq) and _is_getattr(el.left, None, v) and _is_getattr(el.comparators[0], None, v) and {el.left.args[0].id, el.comparators[0].args[0].id} == set(eq.params[:2]) and _name_table(repo, eq, t.args[0].generators[0].iter) is not None:
+                    continue
             if not (isinstance(t, ast.Compare) and isinstance(t.ops[0], ast.Eq) and isinstance(t.left, ast.Attribute) and isinstance(t.comparators[0], ast.Attribute) and t.left.attr == t.comparators[0].attr):
                 ok = False
     whole = [c for r in rets for c in ast.walk(r) if (isinstance(c, ast.Call) and isinstance(c.func, ast.Name) and c.func.id == "vars") or (isinstance(c, ast.Attribute) and c.attr == "__dict__")]
@@ -266,27 +311,58 @@ def bytes_rule(ctx: Ctx) -> None:
     repo = ctx.repo
     f = repo.get(f"{A.UTILS}.convert_to_bytes")
     cfg = cfg_of(f)
+    # the converter and its private pieces (module-level helpers it calls, two levels)
+    scope: list[Def] = [f]
+    for _ in range(2):
+        for g_ in list(scope):
+            for c, ts in repo.calls_in(g_):
+                for t in ts:
+                    if t.kind == "def" and t.ref.is_func and t.ref.module is f.module and t.ref.name.startswith("_") and t.ref not in scope and t.ref.parent is None or (t.kind == "def" and t.ref.is_func and t.ref.module is f.module and t.ref not in scope and t.ref.parent is not None and t.ref.parent.is_func and t.ref.parent in scope):
+                        scope.append(t.ref)
+    for g_ in list(scope):
+        for ch in g_.children.values():
+            if ch.is_func and ch not in scope:
+                scope.append(ch)
+
+    def is_unit_dict(v: ast.AST | None) -> bool:
+        return isinstance(v, ast.Dict) and bool(v.keys) and all(isinstance(k, ast.Constant) and isinstance(k.value, str) and k.value.endswith("B") for k in v.keys)
+
     units = None
-    for n in f.own_nodes():
-        if isinstance(n, (ast.Assign, ast.AnnAssign)) and isinstance(n.value, ast.Dict) and all(isinstance(k, ast.Constant) and isinstance(k.value, str) and k.value.endswith("B") for k in n.value.keys) and n.value.keys:
-            units = n.value
-    ok = False
-    if units is not None:
-        tbl = {k.value: (v.value if isinstance(v, ast.Constant) else None) for k, v in zip(units.keys, units.values)}
-        ok = tbl == {"kB": 1, "MB": 2, "GB": 3, "TB": 4, "PB": 5}
-    ctx.ob(f, units or f.node, ok, "unit table maps kB, MB, GB, TB, PB to exponents 1..5", sel="bytes:table")
-    pows = [n for n in f.own_nodes() if isinstance(n, ast.BinOp) and isinstance(n.op, ast.Pow)]
-    ok = len(pows) == 1 and isinstance(pows[0].left, ast.Constant) and pows[0].left.value == 1000 and isinstance(pows[0].right, ast.Subscript)
-    ctx.ob(f, pows[0] if pows else f.node, ok, "the unit factor is 1000 ** exponent (decimal SI)" + ("" if ok else f" — found `{unparse(pows[0]) if pows else 'none'}`"), sel="bytes:base")
-    # plain-number and bare-B forms have factor 1
-    # the factor variable = the one assigned `1000 ** …`; its other (constant) assignments
-    fvar = None
-    for n in f.own_nodes():
-        if isinstance(n, ast.Assign) and isinstance(n.targets[0], ast.Name) and pows and any(x is pows[0] for x in ast.walk(n.value)):
+    for g_ in scope:
+        for n in g_.own_nodes():
+            if isinstance(n, (ast.Assign, ast.AnnAssign)) and is_unit_dict(n.value):
+                units = n.value
+    if units is None:
+        # a module-level constant table the scope refers to
+        used = {x.id for g_ in scope for x in g_.own_nodes() if isinstance(x, ast.Name)}
+        for n in f.module.tree.body:
+            if isinstance(n, (ast.Assign, ast.AnnAssign)) and is_unit_dict(n.value):
+                tg = n.targets[0] if isinstance(n, ast.Assign) else n.target
+                if isinstance(tg, ast.Name) and tg.id in used:
+                    units = n.value
+    ctx.need(units is not None, "unit table of convert_to_bytes not found")
+    tbl = {k.value: (v.value if isinstance(v, ast.Constant) else None) for k, v in zip(units.keys, units.values)}
+    ok = tbl == {"kB": 1, "MB": 2, "GB": 3, "TB": 4, "PB": 5}
+    ctx.ob(f, units, ok, "unit table maps kB, MB, GB, TB, PB to exponents 1..5", sel="bytes:table")
+    pows = [(g_, n) for g_ in scope for n in g_.own_nodes() if isinstance(n, ast.BinOp) and isinstance(n.op, ast.Pow)]
+    ctx.need(pows, "no power expression in convert_to_bytes: unit factor not recognised")
+    G, pw = pows[0]
+    ok = len(pows) == 1 and isinstance(pw.left, ast.Constant) and pw.left.value == 1000 and isinstance(pw.right, (ast.Subscript, ast.Name, ast.Call))
+    ctx.ob(G, pw, ok, "the unit factor is 1000 ** exponent (decimal SI)" + ("" if ok else f" — found `{unparse(pw)}`"), sel="bytes:base")
+    # plain-number and bare-B forms have factor 1: the factor is the variable assigned
+    # `1000 ** …` (its other, constant, assignments) or the tuple position that returns it
+    ones: list[ast.AST] = []
+    for n in G.own_nodes():
+        if isinstance(n, ast.Assign) and isinstance(n.targets[0], ast.Name) and any(x is pw for x in ast.walk(n.value)):
             fvar = n.targets[0].id
-    ones = [n for n in f.own_nodes() if isinstance(n, ast.Assign) and isinstance(n.targets[0], ast.Name) and n.targets[0].id == fvar and isinstance(n.value, ast.Constant)]
-    ok = bool(ones) and all(n.value.value == 1 for n in ones)
-    ctx.ob(f, ones[0] if ones else f.node, ok, "numeric strings and the bare `B` suffix are taken as bytes (factor 1)", sel="bytes:unit-one")
+            ones += [m.value for m in G.own_nodes() if isinstance(m, ast.Assign) and isinstance(m.targets[0], ast.Name) and m.targets[0].id == fvar and isinstance(m.value, ast.Constant)]
+        if isinstance(n, ast.Return) and isinstance(n.value, ast.Tuple):
+            for i, el in enumerate(n.value.elts):
+                if any(x is pw for x in ast.walk(el)):
+                    ones += [m.value.elts[i] for m in G.own_nodes() if isinstance(m, ast.Return) and m is not n and isinstance(m.value, ast.Tuple) and len(m.value.elts) == len(n.value.elts) and isinstance(m.value.elts[i], ast.Constant)]
+    ctx.need(ones, "the factor of the unit-less forms of convert_to_bytes not recognised")
+    ok = all(n.value == 1 for n in ones)
+    ctx.ob(G, ones[0], ok, "numeric strings and the bare `B` suffix are taken as bytes (factor 1)", sel="bytes:unit-one")
     # the value whose integrality is tested is the exact product: nothing rounds it first
     fl_, cfg_ = flow_of(repo, f), cfg_of(f)
     tests = [c for c in f.own_nodes() if isinstance(c, ast.Call) and isinstance(c.func, ast.Attribute) and c.func.attr == "is_integer" and isinstance(c.func.value, ast.Name) and cfg_.has(c)]
@@ -323,28 +399,44 @@ def bytes_rule(ctx: Ctx) -> None:
                     nonneg = True
         ctx.ob(f, r.stmt, nonneg, "a value is returned only when it is >= 0", sel="bytes:nonneg")
     raises = cfg.stmts(ast.Raise)
-    # the string-format chain ends in a raise
-    str_if = [n for n in cfg.stmts(ast.If) if isinstance(n.stmt.test, ast.Call) and unparse(n.stmt.test).startswith("isinstance(size, str)")]
-    ok = False
-    if str_if:
-        chain = [n for n in cfg.stmts(ast.If) if cfg.dominates(str_if[0].id, n.id) and "is_numeric_str" in unparse(n.stmt.test)]
-        if chain:
-            last = chain[-1]
-            fe = cfg.edge_targets(last.id, "false")
-            ok = bool(fe) and all(cfg.exits_only_to(x, {last.id}, is_raise) for x in fe) and any(isinstance(cfg.nodes[x].stmt, ast.Raise) for x in fe)
-    ctx.ob(f, str_if[0].stmt if str_if else f.node, ok, "a string that matches none of the accepted forms raises ValueError", sel="bytes:bad-string")
+    # the string-format chain ends in a raise: in the function that computes the factor, the
+    # last test that asks "is this part numeric" has only raising exits on its failing side
+    testers = {g_.name for g_ in scope if any(isinstance(x, ast.Try) for x in g_.own_nodes()) and any(isinstance(x, ast.Call) and isinstance(x.func, ast.Name) and x.func.id == "float" for x in g_.own_nodes())}
+    ctx.need(testers, "numeric-string tester of convert_to_bytes not found")
+    cfgG = cfg_of(G)
+
+    def asks_numeric(t: ast.AST) -> bool:
+        return any(isinstance(x, ast.Call) and isinstance(x.func, ast.Name) and x.func.id in testers for x in ast.walk(t))
+
+    chain = [n for n in cfgG.stmts(ast.If) if asks_numeric(n.stmt.test)]
+    if G is f:
+        str_if = [n for n in cfg.stmts(ast.If) if isinstance(n.stmt.test, ast.Call) and unparse(n.stmt.test).startswith("isinstance(size, str)")]
+        ctx.need(str_if, "string branch of convert_to_bytes not found")
+        chain = [n for n in chain if cfg.dominates(str_if[0].id, n.id)]
+    ctx.need(chain, "string-format tests of convert_to_bytes not found")
+    last = chain[-1]
+    neg = isinstance(last.stmt.test, ast.UnaryOp) and isinstance(last.stmt.test.op, ast.Not)
+    fe = cfgG.edge_targets(last.id, "true" if neg else "false")
+    ok = bool(fe) and all(cfgG.exits_only_to(x, {last.id}, is_raise) for x in fe) and any(isinstance(cfgG.nodes[y].stmt, ast.Raise) for x in fe for y in cfgG._reachable(x, {last.id}))
+    ctx.ob(G, last.stmt, ok, "a string that matches none of the accepted forms raises ValueError", sel="bytes:bad-string")
     fl_if = [n for n in cfg.stmts(ast.If) if "is_integer" in unparse(n.stmt.test)]
+    ctx.need(fl_if, "integrality test of convert_to_bytes not found")
     ok = False
     for n in fl_if:
-        fe = cfg.edge_targets(n.id, "false")
+        neg = isinstance(n.stmt.test, ast.UnaryOp) and isinstance(n.stmt.test.op, ast.Not)
+        fe = cfg.edge_targets(n.id, "true" if neg else "false")
         ok = bool(fe) and all(cfg.exits_only_to(x, {n.id}, is_raise) for x in fe)
-    ctx.ob(f, fl_if[0].stmt if fl_if else f.node, ok, "a non-integral number of bytes raises ValueError", sel="bytes:non-integral")
+    ctx.ob(f, fl_if[0].stmt, ok, "a non-integral number of bytes raises ValueError", sel="bytes:non-integral")
     init = repo.get(f"{A.SPEC}.Spec.__init__")
     for p, attr in (("allowed_mem", "_allowed_mem"), ("reserved_mem", "_reserved_mem")):
         ok = False
         for n in init.own_nodes():
             if isinstance(n, ast.Assign) and is_self_attr(n.targets[0]) and n.targets[0].attr == attr and mentions_name(n.value, p):
-                ok = isinstance(n.value, ast.Call) and f"{A.UTILS}.convert_to_bytes" in repo.callee_quals(n.value, init)
+                arms = [n.value]
+                while any(isinstance(a_, ast.IfExp) for a_ in arms):
+                    arms = [b_ for a_ in arms for b_ in ([a_.body, a_.orelse] if isinstance(a_, ast.IfExp) else [a_])]
+                arms = [a_ for a_ in arms if mentions_name(a_, p)]
+                ok = bool(arms) and all(isinstance(a_, ast.Call) and f"{A.UTILS}.convert_to_bytes" in repo.callee_quals(a_, init) for a_ in arms)
         ctx.ob(init, None, ok, f"Spec stores {p} through convert_to_bytes", sel=f"bytes:spec:{p}")
 
 
